@@ -2,4 +2,4 @@
 # usage: goals.sh <file.v> <line>  -- show goals after line N of the file
 f=$1; n=$2; t=/verif/.work/goals_$$.v; mkdir -p /verif/.work
 head -n $n $f > $t; echo "Show." >> $t
-cd /verif/coq && timeout 300 coqc -Q theories RainV $t 2>&1 | head -${3:-60}; rm -f /verif/.work/goals_$$.* /verif/.work/.goals_$$.*
+cd /verif/coq && timeout ${GT:-120} coqc -Q theories RainV $t 2>&1 | head -${3:-60}; rm -f /verif/.work/goals_$$.* /verif/.work/.goals_$$.*
